@@ -155,6 +155,7 @@ func nwTreePool() []nwTree {
 }
 
 func runC05(r *core.Run) {
+	firstCallClause(r, "newick.Reader", "newick.Write")
 	N := core.Pick(r, 6, 8)
 	dev := 2
 	r.Bound("shapes", fmt.Sprintf("every ordered tree with 1..%d nodes; default attributes name n<i>, distance 0; <= %d deviating attributes (name or distance of one node) over %d names %q and %d distances %v", N, dev, len(nwNames), nwNames, len(nwDists), nwDists))
